@@ -344,6 +344,16 @@ func vStop(t Token, nested bool) bool {
 //@   loop 1 invariant old(tokens.index) <= tokens.index && tokens.index <= len(tokens.tokens) && fresh(value)
 //@   loop 1 invariant i >= -1 && len(value) == i + 1 && 0 <= bangPosition && (state != 1 ==> bangPosition <= i)
 //@   loop 1 decreases len(tokens.tokens) - tokens.index
+// CSS Syntax 3 §5.4.6: `!important` is the last two NON-WHITESPACE tokens (comments are not tokens at
+// all): once `!` (then `important`) has been seen, only a token that is neither white space nor a
+// comment takes the parser out of that state; and the flag is recognised only through `!` then the
+// identifier important (ASCII case-insensitive).
+//@   assert after state#2: IsLiteral(token, "!")
+//@   assert after state#3: typeIs(token, Ident) && utils.AsciiLower(token.(Ident).Value) == "important"
+//@   assert after state#4: token.Kind() == KCurlyBracketsBlock
+//@   assert after state#5: token.Kind() != KWhitespace && token.Kind() != KComment
+//@   loop 1 invariant state == 3 ==> IsLiteral(value[bangPosition], "!") && forall(k, bangPosition + 1, len(value), value[k].Kind() == KWhitespace || value[k].Kind() == KComment)
+//@   loop 1 invariant state == 2 ==> bangPosition < len(value) && IsLiteral(value[bangPosition], "!")
 
 // vTokensOK: every token of the list is non-nil (token lists come from Tokenize,
 // whose elements are always concrete token values).
